@@ -29,7 +29,7 @@ def admission(path, keys, hdrs):
 def run(tier, seed, replay):
     rep = vf.Report("C19", tier, seed)
     L = 3 if tier == "thorough" else 2
-    rep.rule = ("every callback program up to length %d over 18 edits of the handed jwt_t (delete/replace exp, nbf, iss, sub, aud, all claims; "
+    rep.rule = ("every callback program up to length %d over 24 operations on the handed jwt_t (typed gets with right and wrong types, gets of absent names, JSON gets, jwt_get_alg; delete/replace exp, nbf, iss, sub, aud, all claims; "
                 "delete/replace the alg header, all headers) x 32 claim policies x 17 tokens (passing, failing exactly one check or the "
                 "signature; HS256, ES256, unsigned) x provider is compared with the callback-free twin at a fixed clock; every 7th program "
                 "also returns non-zero (positive and negative values) and must fail; callback-selected key/alg cells of the policy matrix "
